@@ -299,11 +299,23 @@ def _find_dt_post(c):
     k, j = z3.BitVec('q_k', 8), z3.BitVec('q_j', 8)
     sd = c.mod.field(TR, 'startDateTime')[0]
     key = lambda i: dt_key(c.old, slot(c.old, c.this, i), sd)
-    sorted_ = z3.ForAll([k, j], z3.Implies(z3.And(z3.ULE(k, j), z3.ULT(j, p['free'])), z3.ULE(key(k), key(j))))
-    # proved here: the result is null or one of the active transitions (that it is the LAST one starting at or before the
-    # wall time is stated against the field-by-field order and left to the bounded stand-in: the quantified obligation is
-    # beyond the solvers' reach)
-    return [('null-or-an-active-transition', z3.Or(r == 0, z3.Exists([k], z3.And(z3.ULT(k, p['free']), r == slot(c.old, c.this, k)))))]
+    # the result is the transition after which the first later-starting one follows: it starts at or before the wall time (field by
+    # field order of operator<, which the lemma below shows to be chronological for normalised tuples) and the next active one,
+    # if any, starts after it.  With the active transitions sorted by start this is the LAST one starting at or before the wall
+    # time -- in an overlap the later of the two candidates, the one the property asks for.
+    exists = z3.Exists([k], z3.And(z3.ULT(k, p['free']), r == slot(c.old, c.this, k), z3.ULE(key(k), wall),
+                                   z3.Or(k + 1 == p['free'], z3.UGT(key(k + 1), wall))))
+    goal = exists
+    st = c.state
+    if st is not None and st.frames and st.frames[-1].fn is c.fn and 'i' in st.frames[-1].allocas:
+        # own exit: the existential is shown with its witness, the loop counter minus one (see findTransition)
+        from vc.symex import LoopCtx
+        w = LoopCtx(c.ex, st, st.frames[-1], c).var('i') - 1
+        goal = z3.And(z3.ULT(w, p['free']), r == slot(c.old, c.this, w), z3.ULE(key(w), wall),
+                      z3.Or(w + 1 == p['free'], z3.UGT(key(w + 1), wall)))
+    return [('null-or-an-active-transition', z3.Or(r == 0, z3.Exists([k], z3.And(z3.ULT(k, p['free']), r == slot(c.old, c.this, k))))),
+            ('null-only-when-the-first-transition-starts-later', z3.Implies(r == 0, z3.Or(p['free'] == 0, z3.UGT(key(z3.BitVecVal(0, 8)), wall)))),
+            ('a-transition-not-after-the-wall-time-whose-successor-is-later', z3.Implies(r != 0, goal))]
 
 
 def _find_dt_inv(L):
@@ -319,7 +331,10 @@ def _find_dt_inv(L):
     ld = L.frame.allocas['localDate']
     loc = [L.ex._load_at(L.st.bytes[ld.id], ld, o, n, False, L.st) for o, n in ((0, 1), (1, 1), (2, 1), (4, 2))]
     return [('bounds', z3.ULE(i, p['free'])),
-            ('match-is-the-previous-slot', z3.If(i == 0, match == 0, match == slot(c.old, c.this, i - 1)))]
+            ('match-is-the-previous-slot', z3.If(i == 0, match == 0, match == slot(c.old, c.this, i - 1))),
+            ('local-tuple-is-the-wall-time', z3.Concat(loc[0] ^ 0x80, loc[1], loc[2], loc[3] ^ 0x8000) == wall),
+            ('match-is-null-only-before-the-first-slot', (i == 0) == (match == 0)),
+            ('previous-starts-at-or-before-the-wall-time', z3.Implies(i != 0, z3.ULE(key(i - 1), wall)))]
 
 
 contract(TS + '::findTransitionForDateTime(ace_time::LocalDateTime const&) const', pure=True, props=['C07', 'C09'],
